@@ -170,6 +170,18 @@ def to_number(value: JSValue) -> Union[int, float]:
     return float("nan")
 
 
+def to_integer_or_infinity(value: JSValue) -> Union[int, float]:
+    """ToIntegerOrInfinity: NaN becomes 0, an infinity stays, anything else truncates."""
+    n = to_number(value)
+    if isinstance(n, float):
+        if math.isnan(n):
+            return 0
+        if math.isinf(n):
+            return n
+        return int(n)
+    return n
+
+
 def number_to_string(value: float) -> str:
     """Number::toString for a finite double: the shortest digits that round-trip,
     laid out the ECMAScript way (exponent notation only outside [1e-6, 1e21))."""
